@@ -194,23 +194,217 @@ def chunk_element(sym, buf, idx):
     return None
 
 
+def coefficients_left(sym, facts):
+    """number of coefficients known to remain from an available fact on a coefficient slice:
+    `if let Some(&k) = reminder.first()` -> 1;  `if let Some(k) = chunks_exact(N).next()` -> N"""
+    best = None
+    for cond, val in facts:
+        if val != 1 or cond[0] != "discr":
+            continue
+        e = _strip(cond[1])
+        if e[0] not in ("callat", "call"):
+            continue
+        nm = e[2] if e[0] == "callat" else e[1]
+        args = e[3] if e[0] == "callat" else e[2]
+        s = fmt(e)
+        if nm in ("first", "get") and re.search(r"remainder\(|values\(|split_at\(|coeff|reminder", s):
+            best = 1 if best is None else min(best, 1)
+        elif nm == "next" and args:
+            it = args[0]
+            for _ in range(8):
+                it = _strip(it)
+                if it[0] == "local":
+                    ds = [d for d in sym.defs.get(it[1], []) if d[3]]
+                    if len(ds) != 1:
+                        break
+                    it = sym.rvalue(ds[0][2], ds[0][0])
+                elif it[0] in ("callat", "call") and (it[2] if it[0] == "callat" else it[1]) in (
+                        "into_iter", "by_ref", "iter"):
+                    it = (it[3] if it[0] == "callat" else it[2])[0]
+                else:
+                    break
+            it = _strip(it)
+            if it[0] in ("callat", "call") and (it[2] if it[0] == "callat" else it[1]) == "chunks_exact":
+                a = it[3] if it[0] == "callat" else it[2]
+                k = _strip(a[1])
+                if k[0] == "const" and re.search(r"remainder\(|values\(|coeff|reminder", fmt(it)):
+                    best = k[1] if best is None else min(best, k[1])
+    return best
+
+
+def dst_chunk_left(sym, facts):
+    """`if let Some(dst_chunk) = dst.chunks_exact_mut(N).next()`: N destination components"""
+    for cond, val in facts:
+        if val != 1 or cond[0] != "discr":
+            continue
+        e = _strip(cond[1])
+        if e[0] == "callat" and e[2] == "next" and e[3]:
+            it = e[3][0]
+            for _ in range(8):
+                it = _strip(it)
+                if it[0] == "local":
+                    ds = [d for d in sym.defs.get(it[1], []) if d[3]]
+                    if len(ds) != 1:
+                        break
+                    it = sym.rvalue(ds[0][2], ds[0][0])
+                elif it[0] in ("callat", "call") and (it[2] if it[0] == "callat" else it[1]) in (
+                        "into_iter", "by_ref", "iter"):
+                    it = (it[3] if it[0] == "callat" else it[2])[0]
+                else:
+                    break
+            it = _strip(it)
+            if it[0] in ("callat", "call") and (it[2] if it[0] == "callat" else it[1]) == "chunks_exact_mut":
+                k = _strip((it[3] if it[0] == "callat" else it[2])[1])
+                if k[0] == "const":
+                    return k[1]
+    return None
+
+
+def starts_at_window(sym, idx):
+    """idx is a cursor local initialised from the `start` of a coefficient window"""
+    base = _strip(idx)
+    if base[0] != "local":
+        return False
+    for (bb, j, rv, whole) in sym.defs.get(base[1], []):
+        e = sym.rvalue(rv, bb)
+        if whole and re.search(r"\.start\b|start\(", fmt(e)):
+            return True
+    return False
+
+
+def _resolve_iter(sym, it, field=None):
+    """chunk size N if `it` is (a zip component `field` of) a chunks_exact(N) iterator"""
+    for _ in range(12):
+        it = _strip(it)
+        if it[0] == "local":
+            ds = [d for d in sym.defs.get(it[1], []) if d[3]]
+            if len(ds) != 1:
+                return None
+            it = sym.rvalue(ds[0][2], ds[0][0])
+            continue
+        if it[0] not in ("callat", "call"):
+            return None
+        nm = it[2] if it[0] == "callat" else it[1]
+        args = it[3] if it[0] == "callat" else it[2]
+        if nm in ("into_iter", "by_ref", "iter", "deref_mut", "deref") and args:
+            it = args[0]
+        elif nm == "zip" and len(args) == 2 and field in (0, 1):
+            it, field = args[field], None
+        elif nm in ("chunks_exact", "chunks_exact_mut") and field is None:
+            k = _strip(args[1])
+            return k[1] if k[0] == "const" else None
+        else:
+            return None
+    return None
+
+
+def closure_chunk(prog, f, sym, buf, idx):
+    """f is a closure handed (as 2nd/3rd argument) to a helper that feeds it the items of a
+    chunks_exact(N) iterator (foreach_with_pre_reading): N - idx elements remain in `buf`"""
+    i = _strip(idx)
+    if f.kind != "closure" or i[0] != "const" or not isinstance(i[1], int):
+        return None
+    b = _strip(buf)
+    field = None
+    if b[0] == "field" and isinstance(b[2], int):
+        field, b = b[2], _strip(b[1])
+    if not (b[0] == "param" and b[1] == 2):
+        return None
+    parent = prog.fns.get(f.d.get("parent"))
+    if parent is None:
+        return None
+    psym = Sym(parent)
+    for c in parent.calls():
+        if len(c.args) < 2:
+            continue
+        ops = [psym.operand(a, (c.bb, "term")) for a in c.args]
+        if not any(o[0] == "agg" and o[1] == "closure" and o[2] == f.id for o in ops[1:]):
+            continue
+        if ops[0][0] == "agg":
+            continue
+        n = _resolve_iter(psym, ops[0], field)
+        if n is not None:
+            return n - i[1]
+    return None
+
+
+def _max_offset(sym, e, depth=0):
+    """largest value of an offset expression: constants, k * (loop variable of a 0..n range)"""
+    e = _strip(e)
+    if depth > 6:
+        return None
+    if e[0] == "ovf":
+        return _max_offset(sym, e[1], depth + 1)
+    if e[0] == "const" and isinstance(e[1], int):
+        return e[1]
+    if e[0] == "bin" and e[1] in ("Mul", "Add"):
+        a, b = _max_offset(sym, e[2], depth + 1), _max_offset(sym, e[3], depth + 1)
+        if a is None or b is None:
+            return None
+        return a * b if e[1] == "Mul" else a + b
+    # (next(iter) as Some).0 with iter = into_iter(a..b), constants
+    f = e
+    for _ in range(3):
+        if f[0] in ("field", "variant"):
+            f = _strip(f[1])
+    if f[0] == "callat" and f[2] == "next" and f[3] and "range" in (f[4] if len(f) > 4 else ""):
+        it = f[3][0]
+        for _ in range(6):
+            it = _strip(it)
+            if it[0] == "local":
+                ds = [d for d in sym.defs.get(it[1], []) if d[3]]
+                if len(ds) != 1:
+                    return None
+                it = sym.rvalue(ds[0][2], ds[0][0])
+            elif it[0] in ("callat", "call") and (it[2] if it[0] == "callat" else it[1]) == "into_iter":
+                it = (it[3] if it[0] == "callat" else it[2])[0]
+            else:
+                break
+        it = _strip(it)
+        if it[0] == "agg" and it[2].endswith("ops::range::Range") and len(it[4]) == 2:
+            lo, hi = _strip(it[4][0]), _strip(it[4][1])
+            if lo[0] == "const" and hi[0] == "const" and isinstance(hi[1], int) and hi[1] > 0:
+                return hi[1] - 1
+    return None
+
+
 def cursor_alignment(fn, sym, loops, dom, call, idx):
-    """innermost loop around `call` that iterates chunks_exact(N) and advances idx by a
-    constant: returns (N, step) or None"""
+    """innermost loop around `call` that iterates chunks_exact(N) and advances the cursor of
+    idx by a constant: returns (N * scale, step * scale, kind, offset) in elements of the
+    loaded slice, or None. idx may be cursor (+ offset) or a named `cursor * K` (+ offset)"""
     base = _strip(idx)
     off = 0
     if base[0] == "ovf":
         base = _strip(base[1])
-    if base[0] == "bin" and base[1] == "Add" and _strip(base[3])[0] == "const":
-        off = _strip(base[3])[1]
-        base = _strip(base[2])
+    if base[0] == "bin" and base[1] == "Add":
+        a, b = _strip(base[2]), _strip(base[3])
+        mo = _max_offset(sym, b)
+        if mo is not None:
+            off, base = mo, a
+        else:
+            mo = _max_offset(sym, a)
+            if mo is None:
+                return None
+            off, base = mo, b
     if base[0] != "local":
         return None
+    scale = 1
+    ds = [d for d in sym.defs.get(base[1], []) if d[3]]
+    if len(ds) == 1:
+        e = _strip(sym.rvalue(ds[0][2], ds[0][0]))
+        if e[0] == "ovf":
+            e = _strip(e[1])
+        if e[0] == "bin" and e[1] == "Mul" and _strip(e[2])[0] == "local" and \
+                _strip(e[3])[0] == "const" and isinstance(_strip(e[3])[1], int):
+            base, scale = _strip(e[2]), _strip(e[3])[1]
     enclosing = sorted((body for h, body in loops.items() if call.bb in body), key=len)
     for body in enclosing:
         r = _cursor_in_loop(fn, sym, body, base)
         if r is not None:
-            return r + (off,)
+            n, step, kind = r
+            if isinstance(step, int):
+                step *= scale
+            return (n * scale, step, kind, off)
     return None
 
 
@@ -233,6 +427,13 @@ def _cursor_in_loop(fn, sym, body, base):
                 else:
                     break
             e = _strip(e)
+            a0 = c.args[0]
+            it_ty = fn.local_ty(a0[1][0]) if a0[0] in ("c", "m") and a0[1] else ""
+            if re.search(r"slice::Iter<'[^,]*, i(16|32)>", it_ty or "") and \
+                    "Chunks" not in it_ty and "Zip" not in it_ty:
+                # `for &k in coeffs`: one coefficient per iteration
+                n_chunk = 1 if n_chunk is None else min(n_chunk, 1)
+                continue
             if e[0] in ("callat", "call") and (e[2] if e[0] == "callat" else e[1]) in (
                     "chunks_exact", "chunks_exact_mut"):
                 args = e[3] if e[0] == "callat" else e[2]
@@ -291,9 +492,19 @@ def guard_adequacy(rep, prog, rule, floor_sites=100):
             rem = remaining_from_guard(facts, idx, buf)
             if rem is None:
                 rem = chunk_element(sym, buf, idx)
+            if rem is None:
+                rem = closure_chunk(prog, f, sym, buf, idx)
             key = "%s|%s(%s)" % (f.name, short(c.name), fmt(idx)[:30])
             if rem is None:
                 a = cursor_alignment(f, sym, loops, dom, c, idx)
+                if (a is None or a[1] != a[0]) and starts_at_window(sym, idx):
+                    left = coefficients_left(sym, facts)
+                    if left is not None:
+                        a = (left, left, "coeff", 0)
+                if a is None and _strip(idx)[0] == "local":
+                    left = dst_chunk_left(sym, facts)
+                    if left is not None:
+                        a = (left, left, "dst", 0)
                 if a is None or es is None or w is None:
                     rep.unk(rule, key, c.at, "no explicit length guard and no cursor-aligned "
                             "coefficient loop recognised (relies on the kernel's documented "
